@@ -91,7 +91,8 @@ static void root_report_unusable (int code)
 }
 
 /* position query that must have no side effect */
-static sf_count_t tell (SNDFILE *sf) { sf_count_t p ; INLIB (p = sf_seek (sf, 0, SEEK_CUR)) ; return p ; }
+static int tell_whence = SEEK_CUR ;	/* RDWR handles: SEEK_CUR | SFM_READ (plain SEEK_CUR moves both cursors to the write position) */
+static sf_count_t tell (SNDFILE *sf) { sf_count_t p ; INLIB (p = sf_seek (sf, 0, tell_whence)) ; return p ; }
 
 /* ---------------------------------------------------------------------------------------- C05 reads */
 
@@ -251,12 +252,50 @@ static void c05_write_history (const Fmt *f, int ch, int type, const int *ks, in
 	vl_end (1, vl_hash_u64 (md_hash (&dev), oh)) ;
 }
 
+/* RDWR interplay on sample-granular encodings: the write cursor is parked inside the data, then reads and (typed or raw)
+** writes alternate without seeks. Every write stores what is already there, so the sequential reference stays valid and
+** any confusion between the two cursors shows up as wrong data or a wrong count in a later read. */
+static void c05_rdwr_history (int w0sel, int k1sel, int wmode, int k2sel, int k3sel)
+{	SF_INFO info ; SNDFILE *sf ; const char *rs = root_sig (&root) ; int ch = root.ch, bw = root.blockwidth ;
+	int type = root.f->is_float ? T_FLOAT : T_SHORT ; long ksz [3] = { 1, 10, 8192 / bw + 1 } ;
+	long w0 = w0sel == 0 ? 0 : w0sel == 1 ? 100 : root.F - 12, p = 0, wp, k ; sf_count_t r ; uint64_t oh = VL_H0 ;
+	md_set (&dev, root.bytes, root.len) ; rt_info_read (&info, root.f, ch, root.rate) ;
+	sf = md_open (&dev, SFM_RDWR, &info) ;
+	if (! sf) { vl_note ("RDWR refused: %s", sf_strerror (NULL)) ; vl_end (0, 1) ; return ; }
+	tell_whence = SEEK_CUR | SFM_READ ;
+	if (type == T_FLOAT && ! root.f->is_float) INLIB (sf_command (sf, SFC_SET_NORM_FLOAT, NULL, SF_FALSE)) ;
+	INLIB (r = sf_seek (sf, w0, SEEK_SET | SFM_WRITE)) ;
+	if (r != w0) { vl_violation (rt_sig ("%s|rdwr-seek-write", rs), "SEEK_SET|SFM_WRITE to %ld returned %lld", w0, (long long) r) ; tell_whence = SEEK_CUR ; INLIB (sf_close (sf)) ; vl_end (1, 2) ; return ; }
+	wp = w0 ;
+	if (checked_read (sf, type, 1, p, ksz [k1sel], "C05-rdwr") >= 0) p += ksz [k1sel] < root.F - p ? ksz [k1sel] : root.F - p ;
+	k = ksz [k2sel] ; if (wp + k > root.F) k = root.F - wp ;
+	if (wmode == 0)
+	{	INLIB (r = sf_write_raw (sf, root.bytes + root.dataoffset + wp * bw, k * bw)) ;
+		if (r != k * bw) vl_violation (rt_sig ("%s|rdwr-raw-write-count", rs), "raw write of %ld bytes returned %lld", k * bw, (long long) r) ;
+		}
+	else
+	{	r = vl_write (sf, type, 1, (char *) root.ref [type] + wp * ch * type_size [type], k) ;
+		if (r != k) vl_violation (rt_sig ("%s|rdwr-write-count", rs), "write of %ld frames returned %lld", k, (long long) r) ;
+		}
+	vl_note ("C05-rdwr %s write of %ld frames at %ld -> %lld", wmode ? "typed" : "raw", k, wp, (long long) r) ;
+	wp += k ;
+	{	sf_count_t rp, wq ; INLIB (rp = sf_seek (sf, 0, SEEK_CUR | SFM_READ)) ; INLIB (wq = sf_seek (sf, 0, SEEK_CUR | SFM_WRITE)) ;
+		if (rp != p || wq != wp) vl_violation (rt_sig ("%s|rdwr-cursors", rs), "after read+write: read cursor %lld (expected %ld), write cursor %lld (expected %ld)", (long long) rp, p, (long long) wq, wp) ;
+		}
+	{	long got = checked_read (sf, type, 0, p, ksz [k3sel], "C05-rdwr") ; if (got > 0) p += got ; oh = vl_hash_u64 (got, oh) ; }
+	{	long got = checked_read (sf, type, 1, p, 3, "C05-rdwr") ; oh = vl_hash_u64 (got, oh) ; }
+	vl_count_transitions (5) ;
+	tell_whence = SEEK_CUR ;
+	INLIB (sf_close (sf)) ;
+	vl_end (1, oh) ;
+}
+
 static void run_c05 (void)
 {	for (int fi = 0 ; fi < fmt_count ; fi++)
 	{	const Fmt *f = &fmt_list [fi] ;
 		if (f->needs_path || (f->format & SF_FORMAT_ENDMASK) == SF_ENDIAN_CPU) continue ;
 		if (! vl_opts.thorough && (f->format & SF_FORMAT_ENDMASK) == SF_ENDIAN_LITTLE) continue ;
-		for (int ch = 1 ; ch <= (vl_opts.thorough ? 3 : 2) ; ch++)
+		for (int ch = 1 ; ch <= 3 ; ch++)
 		{	int rc, depth = 3 ;
 			if (! rt_accepts (f, ch, fmt_default_rate (f))) continue ;
 			/* ---- reads ---- */
@@ -302,6 +341,17 @@ static void run_c05 (void)
 							c05_raw_history (si == 0 ? 0 : si == 1 ? 1 : root.F - 2, ks, 3) ;
 							}
 						}
+			/* ---- RDWR interplay ---- */
+			if (f->gran && (f->format & SF_FORMAT_SUBMASK) != SF_FORMAT_DPCM_8 && (f->format & SF_FORMAT_SUBMASK) != SF_FORMAT_DPCM_16 && ch <= 2)
+				for (int code = 0 ; code < 3 * 3 * 2 * 3 * 3 ; code++)
+				{	int w0 = code % 3, k1 = (code / 3) % 3, wm = (code / 9) % 2, k2 = (code / 18) % 3, k3 = code / 54 ;
+					if (vl_case ("C05 RDWR fmt=%s ch=%d w0=%d k1=%d wmode=%s k2=%d k3=%d", f->name, ch, w0, k1, wm ? "typed" : "raw", k2, k3))
+					{	vl_root_count (f->name) ;
+						rc = root_build (fi, f, ch) ;
+						if (rc <= 0) { vl_end (0, 3) ; continue ; }
+						c05_rdwr_history (w0, k1, wm, k2, k3) ;
+						}
+					}
 			/* ---- writes ---- */
 			for (int type = 0 ; type < T_NTYPES ; type++)
 				for (int code = 0 ; code < 125 ; code++)
@@ -425,7 +475,7 @@ static void run_c06 (void)
 	{	const Fmt *f = &fmt_list [fi] ;
 		if (f->needs_path || (f->format & SF_FORMAT_ENDMASK) == SF_ENDIAN_CPU) continue ;
 		if (! vl_opts.thorough && (f->format & SF_FORMAT_ENDMASK) == SF_ENDIAN_LITTLE) continue ;
-		for (int ch = 1 ; ch <= 2 ; ch++)
+		for (int ch = 1 ; ch <= 3 ; ch++)
 		{	if (! rt_accepts (f, ch, fmt_default_rate (f))) continue ;
 			for (int type = 0 ; type < T_NTYPES ; type++)
 			{	/* replay of a single history */
